@@ -259,5 +259,70 @@ def return_temp() -> dict[str, str]:
     return out
 
 
+class _ExtractKw(ast.NodeTransformer):
+    """`f(k=a.b.c)` as a statement / assigned / returned call becomes `_kw_k = a.b.c; f(k=_kw_k)`."""
+
+    def __init__(self) -> None:
+        self.n = 0
+
+    def _f(self, node):  # type: ignore[no-untyped-def]
+        self.generic_visit(node)
+        node.body = self._block(node.body)
+        return node
+
+    visit_FunctionDef = _f
+    visit_AsyncFunctionDef = _f
+
+    @staticmethod
+    def _pure_chain(e: ast.AST) -> bool:
+        depth = 0
+        while isinstance(e, ast.Attribute):
+            e = e.value
+            depth += 1
+        return depth >= 1 and isinstance(e, ast.Name)
+
+    def _block(self, body: list[ast.stmt]) -> list[ast.stmt]:
+        out: list[ast.stmt] = []
+        for s in body:
+            for f in ("body", "orelse", "finalbody"):
+                blk = getattr(s, f, None)
+                if isinstance(blk, list) and blk and isinstance(blk[0], ast.stmt) and not isinstance(s, (ast.FunctionDef, ast.AsyncFunctionDef, ast.ClassDef)):
+                    setattr(s, f, self._block(blk))
+            for h in getattr(s, "handlers", []) or []:
+                h.body = self._block(h.body)
+            call = None
+            if isinstance(s, ast.Expr) and isinstance(s.value, ast.Call):
+                call = s.value
+            elif isinstance(s, (ast.Assign, ast.Return)) and isinstance(s.value, ast.Call):
+                call = s.value
+            if call is not None and not any(isinstance(a, ast.Starred) for a in call.args):
+                # only the first keyword whose value is a pure attribute chain and which is evaluated after pure positionals
+                if all(isinstance(a, (ast.Name, ast.Constant, ast.Attribute)) for a in call.args):
+                    for kw in call.keywords:
+                        if kw.arg is None:
+                            break
+                        if self._pure_chain(kw.value):
+                            self.n += 1
+                            name = f"_kw_{kw.arg}_{self.n}"
+                            out.append(ast.Assign(targets=[ast.Name(id=name, ctx=ast.Store())], value=kw.value, lineno=s.lineno, col_offset=0))
+                            kw.value = ast.Name(id=name, ctx=ast.Load())
+                            break
+                        if not isinstance(kw.value, (ast.Name, ast.Constant)):
+                            break
+            out.append(s)
+        return out
+
+
+def extract_kwarg_temps() -> dict[str, str]:
+    out = {}
+    for rel, src in _sources().items():
+        tree = _ExtractKw().visit(ast.parse(src))
+        ast.fix_missing_locations(tree)
+        new = ast.unparse(tree) + "\n"
+        compile(new, rel, "exec")
+        out[rel] = new
+    return out
+
+
 GENERIC = {"reformat-all-modules": reformat, "shift-statements": shift, "rename-locals": rename_locals,
-           "rename-locals-deep": rename_locals_deep, "return-temp": return_temp}
+           "rename-locals-deep": rename_locals_deep, "return-temp": return_temp, "extract-kwarg-temps": extract_kwarg_temps}
